@@ -67,6 +67,8 @@ fn main() {
     if let Some(r) = ctx.replay_request() {
         if r["leg"].as_str().map(|l| l.starts_with("mapq")).unwrap_or(false) {
             mapq::replay(&ctx, r);
+        } else if r["leg"].as_str().map(|l| l.starts_with("uplinks")).unwrap_or(false) {
+            asys::uplinks::replay(&ctx, r);
         } else {
             replay(&ctx, r);
         }
@@ -74,6 +76,9 @@ fn main() {
     }
     let quick = ctx.quick();
     mapq::run(&ctx);
+    // the registry that decides, per remote, which lane's queue is written next (uplink/mod.rs is
+    // where a map lane's operations wait for a slow remote): everything it says about map lanes
+    asys::uplinks::run(&ctx, "uplinks-bfs-map", if quick { 7 } else { 8 }, |m| m.contains("lane-kind=map"));
     let sc = scripts(quick);
     let modes = [Mode::Eager, Mode::Burst, Mode::SlowRead];
     let cfgs = grid(&sc, if quick { &[8, 4096] } else { &[8, 48, 4096] }, &[2, 64], &modes, &[0]);
